@@ -179,7 +179,12 @@ func replay(t *testing.T, sc *fw.Scenario, path string) {
 	n := int(envInt("VERIF_REPLAY_TIMES", 1))
 	same := 0
 	for i := 0; i < n; i++ {
-		rc := fw.Execute(t, sc, rf.Tier, rf.RunSeed, rf.Index, sim.ReplayTape(rf.RunSeed, rf.Streams), true)
+		tape := sim.ReplayTape(rf.RunSeed, rf.Streams)
+		if rf.Regenerate {
+			tape = sim.NewTape(rf.RunSeed)
+			fmt.Printf("begin index=%d seed=%d\n", rf.Index, rf.RunSeed)
+		}
+		rc := fw.Execute(t, sc, rf.Tier, rf.RunSeed, rf.Index, tape, !rf.Regenerate)
 		if rc.Violation != nil && rc.Violation.Class == rf.Violation.Class {
 			same++
 			fmt.Printf("replay %d: same class %q digest_match=%v\n  %s\n", i, rc.Violation.Class, rc.Digest == rf.Digest, rc.Violation.Message)
